@@ -218,6 +218,20 @@ impl CanonicalAssets {
         self.iter().all(|(_, value)| *value == 0)
     }
 
+    /// The exact sum, or `None` when an amount of the sum does not fit the i128 range.
+    pub fn checked_add(self, other: Self) -> Option<Self> {
+        let mut aggregated = self.0;
+
+        for (key, value) in other.0 {
+            let entry = aggregated.entry(key).or_default();
+            *entry = entry.checked_add(value)?;
+        }
+
+        aggregated.retain(|_, &mut value| value != 0);
+
+        Some(Self(aggregated))
+    }
+
     pub fn is_empty_or_negative(&self) -> bool {
         for (_, value) in self.iter() {
             if *value > 0 {
@@ -263,14 +277,18 @@ impl std::ops::Neg for CanonicalAssets {
     fn neg(self) -> Self {
         let mut negated = self.0;
 
+        // saturating, like `+` and `-` below: i128::MIN has no negation
         for (_, value) in negated.iter_mut() {
-            *value = -*value;
+            *value = value.saturating_neg();
         }
 
         Self(negated)
     }
 }
 
+/// `+`, `-` and negation saturate at the i128 range instead of overflowing: coin selection works
+/// with them on whatever a store returns and must not panic (or wrap) on extreme amounts. Where the
+/// exact result matters use [`CanonicalAssets::checked_add`] or check the operands first.
 impl std::ops::Add for CanonicalAssets {
     type Output = Self;
 
@@ -278,7 +296,8 @@ impl std::ops::Add for CanonicalAssets {
         let mut aggregated = self.0;
 
         for (key, value) in other.0 {
-            *aggregated.entry(key).or_default() += value;
+            let entry = aggregated.entry(key).or_default();
+            *entry = entry.saturating_add(value);
         }
 
         aggregated.retain(|_, &mut value| value != 0);
@@ -294,7 +313,8 @@ impl std::ops::Sub for CanonicalAssets {
         let mut aggregated = self.0;
 
         for (key, value) in other.0 {
-            *aggregated.entry(key).or_default() -= value;
+            let entry = aggregated.entry(key).or_default();
+            *entry = entry.saturating_sub(value);
         }
 
         aggregated.retain(|_, &mut value| value != 0);
